@@ -402,6 +402,11 @@ def build_T13c(tree):
             and ast.unparse(first.value) == 'UID(transfer_syntax_uid).is_encapsulated'):
         raise Unsupported('decode_frame no longer starts with is_encapsulated = UID(transfer_syntax_uid).is_encapsulated')
     rest = body[1:]
+    # integer parameters converted with operator.index (identity on integers, the only values of the model; numpy scalars become
+    # Python ints, anything else raises): `x = operator.index(x)` for parameters only, before anything reads them
+    while rest and isinstance(rest[0], ast.Assign) and isinstance(rest[0].targets[0], ast.Name) \
+            and ast.unparse(rest[0].value) == f'operator.index({rest[0].targets[0].id})' and rest[0].targets[0].id in have:
+        rest = rest[1:]
     # the 1-bit native branch: first `if` -- its body must reshape to the frame shape; the slice itself is T12
     iff = rest[0]
     if not (isinstance(iff, ast.If) and 'bits_allocated == 1' in ast.unparse(iff.test)):
@@ -526,3 +531,32 @@ def decodeOneBitShape (rows columns samples_per_pixel : Nat) : List Nat :=
 
 
 TARGETS['T13n'] = {'file': 'frame.py', 'build': build_T13n}
+
+
+
+# ------------------------------------------------------------------ T13d: defaults of the optional parameters
+def build_T13d(tree):
+    """(function, parameter, default) for every parameter of `encode_frame` / `decode_frame` that has a default -- a caller may
+    leave these out; the frame encoded with omitted arguments must decode with omitted arguments, so the defaults the two
+    functions share must agree (`Proofs/CodecTie.defaults_tie`)."""
+    rows, spans = [], []
+    for name in ('encode_frame', 'decode_frame'):
+        fn = find_func(tree, name)
+        a = fn.args
+        if a.vararg or a.kwarg or a.kwonlyargs or a.posonlyargs:
+            raise Unsupported(f'{name}: signature with *args / **kwargs / keyword-only parameters')
+        pos = a.args
+        defaults = [None] * (len(pos) - len(a.defaults)) + list(a.defaults)
+        for prm, dv in zip(pos, defaults):
+            if dv is not None:
+                if not isinstance(dv, ast.Constant):
+                    raise Unsupported(f'{name}: default of {prm.arg} is not a literal')
+                rows.append((name, prm.arg, repr(dv.value)))
+        spans.append(ast.Expr(value=ast.Constant(value=ast.unparse(a))))
+    q = lambda s: '"' + s + '"'   # noqa: E731
+    text = lean_table('frameDefaults', 'List (String × String × String)', ['(' + ', '.join(q(x) for x in r) + ')' for r in rows],
+                      doc='(function, parameter, default) of the optional parameters of `encode_frame` / `decode_frame`')
+    return text, span_sha(spans)
+
+
+TARGETS['T13d'] = {'file': 'frame.py', 'build': build_T13d}
